@@ -2,7 +2,19 @@
 From GV Require Export Base.Prelude Base.PyStr Model.Iter.
 Open Scope Z_scope.
 
-Record it := mkIt { it_line : str; it_id : str; it_flag : bool; it_renamed : str; it_ftype : str; it_chrom : str; it_keys : list str }.
+(* it_line / it_renamed: the line without a ';' at the end of its attribute column; it_trailing: whether the input line has one *)
+Record it := mkIt { it_line : str; it_id : str; it_flag : bool; it_renamed : str; it_ftype : str; it_chrom : str; it_keys : list str;
+                    it_trailing : bool }.
+
+(* helpers._choose_dialect on the inspected lines (checklines + 1 of them), for the one dialect entry the generated lines
+   differ in: every line votes with the number of its attributes, the heavier value wins, a tie goes to the value seen first *)
+Definition trailing_vote (checklines : nat) (items : list it) : bool :=
+  let w := firstn (S checklines) items in
+  let weight := fun (b : bool) => fold_right Z.add 0 (map (fun x => if Bool.eqb (it_trailing x) b then Z.of_nat (length (it_keys x)) else 0) w) in
+  match w with
+  | [] => false
+  | x :: _ => if weight true >? weight false then true else if weight false >? weight true then false else it_trailing x
+  end.
 
 Inductive tform := TNone | TIdentity | TDropEvenCalls | TDropFlagged | TRename | TFalsy.
 
@@ -38,7 +50,7 @@ Definition verdict (c : case) : Z :=
   match c with
   | CForms items checklines t obs =>
       let '(calls, out) := iterate (tstep t) O items in
-      let exp_lines := map fst out in
+      let exp_lines := map (fun lo => fst lo ++ (if trailing_vote checklines items then [59%N] else [])) out in
       let exp_ids := map snd out in
       if forallb (fun o => match o with FObs _ seq n db =>
                     rl_eqb (Ok exp_lines) seq
